@@ -523,6 +523,23 @@ def check(prop, tier, seed):
             n_reported += 1
         else:
             unconfirmed.append(sig)
+    # ---- stub fidelity (thorough C10 only; cross-check, not a deciding step)
+    fidelity = None
+    if prop == 'C10' and tier == 'thorough':
+        try:
+            pr = subprocess.run([PY, os.path.join(VERIF, 'bin', 'selftest'),
+                                 'fidelity'], stdout=subprocess.PIPE,
+                                stderr=subprocess.DEVNULL, cwd=VERIF,
+                                timeout=1500)
+            lines = [l for l in pr.stdout.decode('utf-8', 'replace')
+                     .splitlines() if l.startswith('fidelity:')]
+            fidelity = {'exit': pr.returncode,
+                        'summary': lines[-1] if lines else None}
+            if pr.returncode != 0:
+                harness_errors.append('stub fidelity: SimParallel and real '
+                                      'joblib disagree: %r' % (fidelity,))
+        except Exception as e:   # noqa
+            fidelity = {'error': repr(e)}
     # ---- evidence ----------------------------------------------------------
     wall = time.time() - t0
     ev = build_evidence(prop, tier, seed, ok, res, corpus, reported,
@@ -530,6 +547,8 @@ def check(prop, tier, seed):
                         det_bad, alt_runs, alt, alt_trace_bad, alt_result_bad,
                         wall, t_batch, extra)
     os.makedirs(os.path.join(OUT, 'evidence'), exist_ok=True)
+    if fidelity is not None:
+        ev['coverage']['stub_fidelity_vs_real_joblib'] = fidelity
     with open(os.path.join(OUT, 'evidence', prop + '.json'), 'w') as f:
         json.dump(ev, f, indent=1, default=str)
     # ---- verdict -----------------------------------------------------------
